@@ -14,6 +14,7 @@ LOSSY = r"(::to_string_lossy$|::from_utf8_lossy$|::into_string_lossy$|::from_utf
 
 
 def run(db, chk):
+    boundary_rule(db, chk)
     # positive control: the pattern must still be able to match something in the workspace
     alive = sum(1 for f in db.by_crate["gix_path"] + db.by_crate["gix"] for c in f.calls() if c.is_(LOSSY))
     chk.floor("lossy-conversion pattern matches somewhere in the workspace (positive control)", alive, 1)
@@ -85,3 +86,18 @@ def run(db, chk):
         need = ["gix_tempfile::forksafe::ForksafeTempfile::drop_impl", "gix_tempfile::AutoRemove::execute_best_effort", "gix_fs::dir::remove::empty_upward_until_boundary"]
         for nm in need:
             chk.ob("drop-reaches-cleanup", "%s -> %s" % (d.name.split("::")[-3], nm.split("::")[-1]), nm in reach, "not reachable in the call graph", "%s:%d" % (d.file, d.line), key="drop-reaches-cleanup|%s" % nm)
+
+
+def boundary_rule(db, chk):
+    """dropping a lock removes the directories it created only up to the boundary: gix_fs::dir::remove::Iter::next recognises the boundary by PATH
+    equality (component-wise: `store/`, `store/.` and `store` are one directory), like Iter::new validates it - not by comparing the raw strings."""
+    f = db.one(r"gix_fs::dir::remove::Iter<.a> as core::iter::traits::iterator::Iterator>::next$")
+    fl = Flow(f)
+    cmps = [c for c in f.calls() if c.is_(r"cmp::PartialEq(<.*>)?>?::(eq|ne)$") and len(c.args) == 2
+            and any(any(r[0] == "arg" and ".boundary" in r[2] for r in fl.roots(a, stop_named=False)) for a in c.args)]
+    chk.floor("remove::Iter::next: comparison with the boundary", len(cmps), 1)
+    for c in cmps:
+        tys = [f.locals[a["p"][0]] if "p" in a and isinstance(a["p"][0], int) else "" for a in c.args]
+        ok = all(re.search(r"std::path::Path(Buf)?$", t.replace("&", "").strip()) for t in tys)
+        chk.ob("boundary-compared-as-path", "remove::Iter::next", ok, "the boundary is compared as %s: a boundary spelled `dir/` or `dir/.` is not recognised and the boundary directory itself (and empty ancestors) are removed" % tys,
+               c.where(), key="boundary-compared-as-path")
